@@ -3,6 +3,7 @@
 garbage"); every observation (register state, every MMIO read, memory, latches) must be independent of those bytes, straight
 after construction and after Reset. Then Reset is run from an arbitrary state (all peripheral fields, cell words, registers,
 latches, memory symbolic) and every observation must equal that of constructor-then-Reset."""
+import re
 import z3, ctypes
 from engine import build, kit, core, native
 from engine.kit import Ptr, bv, is_c
@@ -10,6 +11,10 @@ from engine.llsym import DEAD, Abort, UnwindBound
 from checks import graph, c12
 
 _twin = None
+LISTED_OBS = {'MMIO cell backing words': r'mmio\[',
+              'ICU routing/pending/vector state': r'field\.icu\.|mmio\[0x2(0[068ac]|1[2-9a-f]|[234][0-9a-f]|50)\]$',
+              'APBP interrupt-disable words': r'field\.apbp_from_(cpu|dsp)\.ch[0-2]\.disable$|mmio\[0x0d4\]$',
+              'interpreter interrupt latches': r'interpreter\.(interrupt_pending\[[0-2]\]|vinterrupt_pending|vinterrupt_address|vinterrupt_context_switch)$'}
 
 
 def garbage_vars(t):
@@ -222,6 +227,10 @@ def job_reset(lo, hi, tier, seed):
             bits = t.size() if z3.is_expr(t) else (w.size() if z3.is_expr(w) else 16)
             goal = bv(t, bits) == bv(w, bits)
         for k_ in (kind_of(pre_vars(t) if z3.is_expr(t) else set()).split(' + ')):
+            # the listed findings name the observations known to survive; any other observation that starts depending on
+            # the same kind of pre-Reset state is a separate obligation and is reported
+            if k_ in LISTED_OBS and not re.match(LISTED_OBS[k_], n):
+                k_ += ' (observations other than the listed ones)'
             groups.setdefault(k_, []).append((n, goal))
     for k_, items in sorted(groups.items()):
         ck.prove('ResetEqualsFresh[no observation keeps %s]' % k_, A, z3.And(*[g for _, g in items]), vars={}, witness=False,
